@@ -225,7 +225,9 @@ func (ex *Exec) applyContract(st *State, fr *Frame, ct *Contract, fn *ssa.Functi
 	if fr.contract != nil {
 		for i, cl := range fr.contract.Asserts["call "+site] {
 			lev := ex.loopEnv(st, fr)
-			ex.oblige(st, fnKey, fmt.Sprintf("at(%s):%s", short, labelOr(cl, i)), clauseTags(cl, fr.contract), lev.Bool(cl.E), where, cl.Src)
+			g := lev.Bool(cl.E)
+			ex.oblige(st, fnKey, fmt.Sprintf("at(%s):%s", short, labelOr(cl, i)), clauseTags(cl, fr.contract), g, where, cl.Src)
+			st.assume(g) // proved above; from here on it is a lemma
 		}
 	}
 	// frame
@@ -959,4 +961,47 @@ func (ex *Exec) rangeNext(st *State, fr *Frame, x *ssa.Next) {
 	v := ex.define(st, "rangeval", Select(Select(st.Heap(val, vs), m), k))
 	ex.assumeTyped(st, v, mt.Elem())
 	fr.vals[x] = Tuple{ok, k, v}
+}
+
+// promotedView: converting *S to an interface whose methods are all promoted from one embedded
+// interface-typed field of S yields, for the purpose of those methods, that embedded value
+// (Go's method promotion: s.M() is s.field.M()).
+func (ex *Exec) promotedView(st *State, v T, pt types.Type, target types.Type) (T, bool) {
+	iface, ok := under(target).(*types.Interface)
+	if !ok || iface.NumMethods() == 0 {
+		return T{}, false
+	}
+	var path []int
+	for i := 0; i < iface.NumMethods(); i++ {
+		m := iface.Method(i)
+		obj, index, _ := types.LookupFieldOrMethod(pt, true, m.Pkg(), m.Name())
+		f, ok := obj.(*types.Func)
+		if !ok || len(index) < 2 {
+			return T{}, false
+		}
+		recv := f.Type().(*types.Signature).Recv()
+		if recv == nil || !types.IsInterface(recv.Type()) {
+			return T{}, false
+		}
+		p := index[:len(index)-1]
+		if path == nil {
+			path = p
+		} else if fmt.Sprint(path) != fmt.Sprint(p) {
+			return T{}, false
+		}
+	}
+	cur := v
+	curT := pt
+	for _, idx := range path {
+		p, ok := under(curT).(*types.Pointer)
+		if !ok {
+			return T{}, false
+		}
+		si := ex.c.StructOf(p.Elem())
+		hn, hs := ex.c.FieldHeap(p.Elem(), idx)
+		st.assume(Not(Eq(cur, Nil)))
+		cur = Select(st.Heap(hn, hs), cur)
+		curT = si.Fields[idx].Go
+	}
+	return ex.define(st, "promoted", cur), true
 }
